@@ -4,7 +4,7 @@ from props import hist, histprop, c03
 def corpus_cases():
     """every operation on every kind of target (within the domain the property specifies)"""
     return hist.matrix_cases("c01", ["mem", "phys", "alt_mem", "alt_phys", "ovl_mm", "ovl_m", "ovl_pp", "ovl_sub", "alt_ovl",
-                                     "ovl_alt", "ovl_ovl"], c01_domain=True)
+                                     "ovl_alt", "ovl_ovl"], c01_domain=True) + hist.deleted_target_cases("c01")
 
 
 P = histprop.HistProp(
